@@ -39,6 +39,7 @@ type Verdict struct {
 	Class  string // short failure class (stable; part of the signature)
 	Detail string
 	Head   int // node id of the exposed head (-1 unknown)
+	Node   int // node id of the block the failure is about (ancestor checks), 0 otherwise
 }
 
 type Judge struct {
@@ -180,7 +181,7 @@ func (j *Judge) Reopen(im Image, ghost int, strict bool, refeed bool) (v Verdict
 		case core.GetTd(db, h, n) == nil:
 			return Verdict{Class: "ancestor-incomplete", Detail: fmt.Sprintf("total difficulty of canonical #%d (node %d) missing", n, id), Head: hid}
 		case n > 0 && core.GetBlockReceipts(db, h, n) == nil && len(blk.Transactions()) > 0:
-			return Verdict{Class: "ancestor-incomplete", Detail: fmt.Sprintf("receipts of canonical #%d (node %d) missing", n, id), Head: hid}
+			return Verdict{Class: "canonical-receipts-missing", Detail: fmt.Sprintf("receipts of canonical #%d (node %d) missing", n, id), Head: hid, Node: id}
 		}
 	}
 	if !refeed {
